@@ -60,8 +60,8 @@ type regSys struct {
 }
 
 type c02Case struct {
-	Mode    string `json:"mode"`
-	History []Op   `json:"history"`
+	Mode    string   `json:"mode"`
+	History []Op     `json:"history"`
 	Text    []string `json:"text"`
 }
 
@@ -376,8 +376,8 @@ func c02Check(r *vcore.Run) vcore.Coverage {
 			seeds = seeds2
 		}
 		st := vstate.BFS(vstate.Spec[Op]{
-			New:       func() vstate.System[Op] { return newMemSys(r, "C02", u, cfg, immutable) },
-			MaxDepth:  depth, MaxStates: maxStates, Deadline: deadline, Seeds: seeds,
+			New:      func() vstate.System[Op] { return newMemSys(r, "C02", u, cfg, immutable) },
+			MaxDepth: depth, MaxStates: maxStates, Deadline: deadline, Seeds: seeds,
 		})
 		states += st.States
 		trans += st.Transitions
